@@ -78,15 +78,16 @@ public:
     }
     void onInput(const char* buffer, size_t len, const std::shared_ptr<Tcp::Peer>& peer) override {
         int port = peer_port(peer);
-        Scenario* sc = nullptr; std::string cmd;
+        Scenario* sc = nullptr; std::vector<std::string> cmds;
         {
             std::lock_guard<std::mutex> g(g_m);
             PeerInfo& pi = g_peers[port];
             pi.inbuf.append(buffer, len);
             size_t p;
-            while ((p = pi.inbuf.find('\n')) != std::string::npos) { cmd = pi.inbuf.substr(0, p); pi.inbuf.erase(0, p + 1);
-                auto it = g_scen.find(port); sc = it == g_scen.end() ? nullptr : it->second; break; }
+            while ((p = pi.inbuf.find('\n')) != std::string::npos) { cmds.push_back(pi.inbuf.substr(0, p)); pi.inbuf.erase(0, p + 1); }
+            auto it = g_scen.find(port); sc = it == g_scen.end() ? nullptr : it->second;
         }
+        for (const std::string& cmd : cmds)
         if (cmd == "GO" && sc) {
             if (sc->foreignInsideHandler) {
                 // happens-before is explicit: the foreign thread's writes are issued (and the thread joined) before the loop thread's
@@ -95,6 +96,8 @@ public:
                 t.join();
             }
             for (size_t i = 0; i < sc->writes.size(); i++) if (!sc->writes[i].foreign) issue_write(transport(), peer->fd(), sc, i);
+        } else if (cmd == "SLEEP") {
+            lv::msleep(250);
         } else if (cmd == "PING") {
             transport()->asyncWrite(peer->fd(), RawBuffer(std::string("PONG!"), 5));
         }
@@ -120,9 +123,10 @@ static std::string script_text(const std::vector<lv::Act>& s) { std::string t; f
 static std::string spec_text(const std::vector<WriteSpec>& w) { std::string t; for (auto& x : w) t += std::string(x.file ? "file" : "mem") + (x.foreign ? "@thread" : "@loop") + ":" + std::to_string(x.size) + " "; return t; }
 
 // run one scripted connection; returns false on harness trouble (inconclusive)
-static bool c06_connection(Server& srv, long idx, const std::vector<WriteSpec>& writes, const std::vector<lv::Act>& script, bool foreignFirst, int rcvbuf, int readerPauseMs, unsigned base, bool insideHandler = false) {
+static bool c06_connection(Server& srv, long idx, const std::vector<WriteSpec>& writes, const std::vector<lv::Act>& script, bool foreignFirst, int rcvbuf, int readerPauseMs, unsigned base, bool insideHandler = false, bool raceWithInput = false) {
     Scenario sc; sc.writes = writes; sc.base = base; sc.foreignInsideHandler = insideHandler;
     if (insideHandler) foreignFirst = true;
+    if (raceWithInput) { foreignFirst = false; }
     size_t total = 0;
     for (size_t i = 0; i < writes.size(); i++) {
         sc.recs.emplace_back(new WriteRec());
@@ -157,7 +161,15 @@ static bool c06_connection(Server& srv, long idx, const std::vector<WriteSpec>& 
     std::string expect; for (size_t i : order) expect += tagged(base + (unsigned)i, writes[i].size);
     size_t nLoop = 0; for (auto& w : writes) if (!w.foreign) nLoop++;
     std::thread helper;
-    if (insideHandler) c.send_all("GO\n");
+    if (raceWithInput) {
+        // the foreign write is queued while bytes from the peer arrive: the worker may see "readable" and "writable" for this
+        // descriptor in one event
+        c.send_all("GO\n"); wait_for([&] { return sc.issued.load() >= (int)nLoop; }, 5.0);
+        std::thread t([&] { for (int k = 0; k < 3; k++) { c.send_all("NOP\n"); } });
+        foreign();
+        t.join();
+    }
+    else if (insideHandler) c.send_all("GO\n");
     else if (foreignFirst) { foreign(); c.send_all("GO\n"); }
     else { c.send_all("GO\n"); wait_for([&] { return sc.issued.load() >= (int)nLoop; }, 5.0); foreign(); }
     if (readerPauseMs) lv::msleep(readerPauseMs);
@@ -207,7 +219,7 @@ static bool c06_connection(Server& srv, long idx, const std::vector<WriteSpec>& 
     if (!key.empty()) violation(key, "writes [" + shape + "] with socket outcomes [" + script_text(script) + "]: " + key.substr(4), wt);
     std::string faults; for (auto& a : script) faults += a.kind == lv::A_PASS ? 'F' : a.kind == lv::A_EAGAIN ? 'E' : 'S';
     std::string wk; for (auto& w : writes) wk += std::string(w.file ? "f" : "m") + (w.foreign ? "t" : "l") + (w.size <= 1 ? "1" : w.size < 4096 ? "s" : w.size == 4096 ? "p" : w.size < 100000 ? "m" : "L");
-    g_distinct.add(wk + "|" + faults + "|" + (rcvbuf ? "bp" : "") + (insideHandler ? "|ih" : ""));
+    g_distinct.add(wk + "|" + faults + "|" + (rcvbuf ? "bp" : "") + (insideHandler ? "|ih" : "") + (raceWithInput ? "|race" : ""));
     count("connections");
     if (g_samples_left > 0 && (idx % 101) == 7) { g_samples_left--; sample(Json().str("writes", shape).str("script", script_text(script)).num("bytes", (long long)total).done()); }
     { std::lock_guard<std::mutex> g(g_m); g_scen.erase(c.localPort); }
@@ -255,6 +267,13 @@ static void run_c06(long cases) {
         c06_connection(srv, idx++, ws, script, r.chance(1, 2), 0, 0, base, r.chance(1, 3)); base += 8;
         count("random_fault_scripts");
     }
+    // (2b) a foreign-thread write racing with input from the same peer
+    for (long n = 0; n < std::max<long>(40, cases); n++) {
+        std::vector<WriteSpec> ws; int nw = r.range(1, 3);
+        for (int i = 0; i < nw; i++) ws.push_back({(size_t)r.range(1, 3000), false, i == nw - 1 || r.chance(1, 2)});
+        c06_connection(srv, idx++, ws, {}, false, 0, 0, base, false, true); base += 8;
+        count("foreign_write_racing_with_input");
+    }
     // (3) real kernel back-pressure: small receive buffer, reader pauses
     long nbp = std::max<long>(2, cases / 12);
     for (long n = 0; n < nbp; n++) {
@@ -263,6 +282,61 @@ static void run_c06(long cases) {
         for (int i = 0; i < nw; i++) ws.push_back({(size_t)r.range(300000, 2500000), r.chance(1, 3), false});
         c06_connection(srv, idx++, ws, {}, false, 4096, r.range(50, 300), base); base += 8;
         count("backpressure_runs");
+    }
+    // (4) a connection that goes away with a write still pending, then new connections (the descriptor number is reused):
+    //     each must receive exactly its own stream
+    for (long n = 0; n < std::max<long>(3, cases / 20); n++) {
+        {
+            Scenario sc; sc.writes = {{(size_t)(6u << 20), false, false}}; sc.base = base; sc.recs.emplace_back(new WriteRec()); sc.files.push_back("");
+            lv::Conn a; if (!a.open_to(srv.port, 2048)) continue;
+            wait_for([&] { std::lock_guard<std::mutex> g(g_m); auto it = g_peers.find(a.localPort); return it != g_peers.end() && it->second.fd >= 0; }, 5.0);
+            { std::lock_guard<std::mutex> g(g_m); g_scen[a.localPort] = &sc; }
+            a.send_all("GO\n");
+            wait_for([&] { return sc.issued.load() >= 1; }, 5.0);
+            lv::msleep(r.range(20, 80));
+            int lp = a.localPort;
+            if (r.chance(1, 2)) a.rst_close(); else a.close_now();
+            wait_for([&] { std::lock_guard<std::mutex> g(g_m); auto it = g_peers.find(lp); return it == g_peers.end() || it->second.disconnections > 0; }, 5.0);
+            { std::lock_guard<std::mutex> g(g_m); g_scen.erase(lp); g_peers.erase(lp); }
+            base += 8;
+        }
+        for (int k = 0; k < 3; k++) { c06_connection(srv, idx++, {{(size_t)r.range(1, 5000), false, r.chance(1, 2)}}, {}, false, 0, 0, base); base += 8; }
+        count("new_connections_after_abandoned_write");
+    }
+    srv.stop();
+}
+
+// ------------------------------------------------------------------ C13 at server level: the write queue's drain loop
+// A write queued for a connection that is already gone, with a write for a live connection queued right behind it while
+// the worker is busy: the drain loop must not stop at the stale entry (the notification was consumed by then).
+static void run_c13s(long cases) {
+    lv::ip().enabled = true;
+    Server srv; srv.start(1);
+    Rng r(g_opts.seed * 7013 + (uint64_t)g_opts.shard);
+    for (long n = 0; n < cases; n++) {
+        long idx = g_opts.shard * 100000L + n;
+        set_case(idx, Json().num("i", idx).str("phase", "c13-server").done());
+        lv::Conn a, b, c;
+        if (!a.open_to(srv.port) || !b.open_to(srv.port) || !c.open_to(srv.port)) continue;
+        std::shared_ptr<Tcp::Peer> pa, pb;
+        wait_for([&] { std::lock_guard<std::mutex> g(g_m); auto ia = g_peers.find(a.localPort), ib = g_peers.find(b.localPort), ic = g_peers.find(c.localPort); if (ia == g_peers.end() || ib == g_peers.end() || ic == g_peers.end() || !ia->second.peer || !ib->second.peer || !ic->second.peer) return false; pa = ia->second.peer; pb = ib->second.peer; return true; }, 5.0);
+        if (!pa || !pb) { count("harness_no_registration"); continue; }
+        int la = a.localPort;
+        a.close_now();
+        wait_for([&] { std::lock_guard<std::mutex> g(g_m); auto it = g_peers.find(la); return it == g_peers.end() || it->second.disconnections > 0; }, 5.0);
+        // keep the worker away from its loop, then queue: stale write (A), live write (B)
+        c.send_all("SLEEP\n");
+        lv::msleep(30);
+        std::string data = tagged(9000 + (unsigned)n, 100);
+        try { pa->send(RawBuffer(std::string("stale"), 5)); } catch (...) {}
+        pb->send(RawBuffer(data, data.size()));
+        std::string got; double end = lv::now() + 4.0 * lv::load_factor();
+        while (got.size() < data.size() && lv::now() < end) b.read_some(got, 100, data.size() - got.size());
+        g_evals++;
+        if (got != data) violation("c13:server:write-behind-stale-entry-not-drained", "a write queued behind a write for a vanished connection was not delivered within the bound (" + std::to_string(got.size()) + " of " + std::to_string(data.size()) + " bytes): the drain loop stopped with items queued and no notification pending", g_case);
+        g_distinct.add("c13s|" + std::to_string(n % 64));
+        count("stale_then_live_writes");
+        { std::lock_guard<std::mutex> g(g_m); g_peers.erase(la); }
     }
     srv.stop();
 }
@@ -396,7 +470,7 @@ int main(int argc, char** argv) {
     char tmpl[] = "wtmp-XXXXXX";   // inside the check's scratch directory (cwd)
     g_tmpdir = mkdtemp(tmpl);
     std::string prop = g_opts.get("prop", "c06");
-    if (prop == "c06") run_c06(g_opts.cases); else run_c07(g_opts.cases);
+    if (prop == "c06") run_c06(g_opts.cases); else if (prop == "c13s") run_c13s(g_opts.cases); else run_c07(g_opts.cases);
     rmdir(g_tmpdir.c_str());
     g_distinct.flush();
     Json s; s.str("t", "sum").num("evaluations", g_evals);
